@@ -325,7 +325,7 @@ Fixpoint supported (e : sexpr) : bool :=
 
 (* contains a construct the converter or the dialect has no entry for (the recorded negations are not looked at).
    Functions whose NAME is an entry of the dialect table but which are not the supported elementary functions
-   (undefined functions called cos, add ..) are neither supported nor counted here: see finding C19-N1. *)
+   (undefined functions called cos, add ..) are neither supported nor counted here: see finding F30. *)
 Fixpoint unsupported_inside (e : sexpr) : bool :=
   match e with
   | SSym _ | SInt _ | SFloat _ | SRat _ _ | SImag | SNumOther _ => false
